@@ -394,6 +394,17 @@ def resolve_helper(R, f, call):
                 h = R.funcs[q]
                 skip = 0 if h.is_static else 1
                 return h, skip
+        # t.m(...) with t a local bound once to a construction K(..) of a repository class: the method of K
+        if cq is None and base not in ("self", "cls"):
+            binds = [n for n in ast.walk(f.node) if isinstance(n, ast.Name) and n.id == base and isinstance(n.ctx, (ast.Store, ast.Del))]
+            if len(binds) == 1 and base not in f.params:
+                for n in ast.walk(f.node):
+                    if isinstance(n, ast.Assign) and len(n.targets) == 1 and n.targets[0] is binds[0] and isinstance(n.value, ast.Call) and isinstance(n.value.func, ast.Name):
+                        kq = R.chase(f.mod, n.value.func.id)
+                        if kq in R.classes:
+                            q = R.lookup_method(kq, fn.attr)
+                            if q in R.funcs and not R.funcs[q].is_static and not R.funcs[q].is_classmethod and not R.funcs[q].is_property:
+                                return R.funcs[q], 1
         # other.m(...) inside a method of class K where m is a (private) method that only K's hierarchy defines: `other` is a K
         if cq is None and f.cls and fn.attr.startswith("_") and not fn.attr.startswith("__"):
             kq = f"{f.mod}.{f.cls}"
